@@ -41,4 +41,21 @@ PROPS = {
         "explanation": "theorem for all texts; packet paths call the same function in the model, tied by the oracle on the real decoders",
         "assumptions": ["simdutf8::basic::from_utf8 and str::chars() are modelled by core Lean's verified UTF-8 decoder (compared on every utf8 op)"],
     },
+    "C16": {
+        "lean": "Properties.C16",
+        "level_text": "Machine-checked Lean 4 theorem for ALL texts: the model of TopicFilter::is_invalid (the single-pass state machine with its seven loop variables, the four post-checks and the debug_assert) returns `valid (Spec.sharedSep cs)` exactly when Spec.validFilter cs (MQTT 4.7.1/4.7.3/4.8.2 written declaratively by levels) and `invalid` otherwise; it never panics and does not depend on the build profile. The model is tied to the code by bounded-exhaustive correspondence (every string of length <= 5/6 over the 9 character classes the validator distinguishes, every $share prefix shape, 65,534..65,536-byte strings) in release and debug builds; the oracle checks the real validator, constructor and the SUBSCRIBE/UNSUBSCRIBE decode paths of both families against an independent Rust rendering of the rule.",
+        "streams": ["tf"],
+        "debug_streams": ["tf"],
+        "rule": "tf: all strings of length <= 5 (thorough 6) over {/ + # $ a NUL é 你 😀}; 10 $share-prefix shapes x all strings of length <= 3 (4); 65534/65535/65536-byte strings (ascii, multibyte tail, shared); random; invalid UTF-8. distinct = distinct strings.",
+        "explanation": "theorem for all texts (found and fixed F3: '+x' accepted); packet paths call the same function in the model, tied by the oracle on the real decoders",
+        "assumptions": ["str::chars()/len() are modelled by core Lean's verified UTF-8 decoder over the byte string"],
+    },
+    "C17": {
+        "lean": "Properties.C17",
+        "level_text": "Machine-checked Lean 4 theorems for ALL accepted filters: a non-zero cached index means the text is $share/ ++ name ++ / ++ filter with non-empty name free of '/', non-empty filter, index = 7 + UTF-8 size of name; the byte slices the accessors take are exactly the encodings of name and filter and fall on character boundaries (no slice panic, multi-byte names included); the split is unique; index 0 iff the text does not start with $share/ (accessors then return None); constructed filters are equal iff their texts are. Eq/Ord/Hash looking only at the text is tied by the oracle (==, cmp, partial_cmp, hash of filters vs their strings).",
+        "streams": ["tf"],
+        "rule": "same tf stream as C16 restricted by the oracle to accepted filters; consecutive pairs for ==/cmp/hash",
+        "explanation": "accessor theorems over the model; Eq/Ord/Hash are definitional in the model and observed on the implementation",
+        "assumptions": ["Hash/Ord of str are the standard library's", "&s[a..b] panics exactly off char boundaries or out of range (modelled by strSlice)"],
+    },
 }
